@@ -731,12 +731,15 @@ class MementoFunctionHashRule(HashRule):
         def hashed_as(fn):
             return (getattr(fn, "explicit_version", None), fn.code_hash)
 
-        return (
-            new_fn is not self.memento_fn
-            and new_fn.qualified_name_without_version
-            == self.memento_fn.qualified_name_without_version
-            and hashed_as(new_fn) != hashed_as(self.memento_fn)
-        )
+        if new_fn is self.memento_fn:
+            return False
+        if (
+            new_fn.qualified_name_without_version
+            != self.memento_fn.qualified_name_without_version
+        ):
+            # The symbol (e.g. a module-level alias) was re-bound to another memento function
+            return True
+        return hashed_as(new_fn) != hashed_as(self.memento_fn)
 
     def __repr__(self):
         return f"MementoFunctionHashRule(key={repr(self.key)})"
